@@ -220,8 +220,9 @@ def inputs_of(spec, rng_seed):
                     yield bytes([a, b])
     elif kind == 'exh3':           # ('exh3', first-octet range lo, hi, third octets or None)
         thirds = spec[3] if spec[3] is not None else range(256)
+        seconds = spec[4] if len(spec) > 4 else range(256)
         for a in range(spec[1], spec[2]):
-            for b in range(256):
+            for b in seconds:
                 for c in thirds:
                     yield bytes([a, b, c])
     elif kind == 'mut1':           # ('mut1', hex, values or None): all 1-octet substitutions
@@ -568,7 +569,7 @@ def walker_table():
         ('IPv4FlowSpec.parse_operators', 'operators', lambda b: len(IPv4FlowSpec.parse_operators(b)[0]), ident, 'any'),
         # TLV walkers, element decoders that cannot raise: unregistered type codes only
         ('LinkState.unpack(unregistered types)', 'tlv 4 2 2', lambda b: len(LinkState.unpack(b).value), ident, 'ls'),
-        ('BGPPrefixSID.unpack(unregistered types)', 'tlv 3 1 2', lambda b: len(BGPPrefixSID.unpack(b).value),
+        ('BGPPrefixSID.unpack(unregistered types)', 'tlv 3 1 2', lambda b: len(BGPPrefixSID.unpack(b)),
          ident, 'ps'),
         ('SRCapabilities.unpack', 'srcap', lambda b: len(R[1034].unpack(b'\x00\x00' + b).value['value']), ident, 'sr'),
         ('SRLB.unpack', 'srcap', lambda b: len(R[1036].unpack(b'\x00\x00' + b).value), ident, 'sr'),
@@ -689,11 +690,12 @@ def build_batches(ctx):
                 batches.append([(n, ('exh3', lo, lo + 32, None))])
             n3 += 1
         else:
-            batches.append([(n, ('exh3', 0, 256, BOUNDARY))])
+            batches.append([(n, ('exh3', 0, 256, BOUNDARY[::2], BOUNDARY))])
             n3 += 1
     info['exhaustive_len2_decoders'] = len(names)
     info['len3_decoders'] = n3
-    info['len3_mode'] = 'all 2^24' if ctx.thorough else 'all first two octets x %d boundary third octets' % len(BOUNDARY)
+    info['len3_mode'] = 'all 2^24' if ctx.thorough else 'all first octets x %d boundary second x %d boundary third octets' % (len(BOUNDARY), len(BOUNDARY[::2]))
+    n_sweep = len(batches)
     # (2) corpus on every decoder
     hexes = [c.hex() for c in corpus_all]
     for i in range(0, len(names), 6):
@@ -747,6 +749,8 @@ def build_batches(ctx):
     for i in range(0, len(wrapped), 4000):
         batches.append([('Update.parse', ('list', wrapped[i:i + 4000]))])
         batches.append([('Update.parse/asn4+addpath', ('list', wrapped[i:i + 4000]))])
+    # the targeted batches first, the exhaustive sweeps (section 1) last
+    batches = batches[n_sweep:] + batches[:n_sweep]
     return batches, info
 
 
@@ -790,7 +794,7 @@ def run(ctx):
         key = (v.get('decoder'), v['what'].split(' on a ')[0][:80])
         if key not in best or len(str(v.get('input'))) < len(str(best[key].get('input'))):
             best[key] = v
-    viol = sorted(best.values(), key=lambda v: len(str(v.get('input'))))
+    viol = sorted(best.values(), key=lambda v: (0 if v.get('decoder') else 1, len(str(v.get('input')))))
     ncases, mism, samples = correspondence(ctx)
     # work bound actually observed: the slowest single call
     extra = dict(info)
